@@ -362,6 +362,33 @@ Example C28_lca_nonvacuous :
   end.
 Proof. vm_compute. repeat split; reflexivity. Qed.
 
+(* ---- near-tree encoding: subsumption (interval test or a search through chained exception edges
+   with a seen-set) == brute force, and the LCA set that is filtered with it ---- *)
+Theorem C28_near_subsumes : forall n edges p m r,
+  (forall c q, In (c, q) edges -> c < n /\ q < n) ->
+  from_edges n edges = inl p ->
+  forall x y, x < n -> y < n ->
+  subsumes (mk_index p (build_near p) m r) x y = spec_subsumes p x y /\
+  lowest_common_ancestors (mk_index p (build_near p) m r) x y = spec_lca p x y.
+Proof.
+  intros n edges p m r Hr H x y Hx Hy.
+  destruct (from_edges_wf n edges p Hr H) as [[rk W] [_ [Hn _]]]. subst n. split.
+  - apply (near_subsumes p rk W); auto.
+  - apply lca_generic; auto.
+    + unfold mk_index. cbn [ix_enc]. rewrite (near_enc p). exact I.
+    + intros a b Ha Hb. apply (near_subsumes p rk W); auto.
+Qed.
+
+(* two chained exception edges: 4 -> 3 (exception), 3 -> 1 (exception); 4 reaches 1 only through both *)
+Example C28_near_nonvacuous :
+  match from_edges 5 [(2, 0); (3, 2); (4, 0); (4, 3); (3, 1)] with
+  | inl p => let ix := mk_index p (build_near p) None [] in
+             subsumes ix 4 1 = true /\ subsumes ix 2 1 = false /\ subsumes ix 4 2 = true /\
+             spec_subsumes p 4 1 = true /\ lowest_common_ancestors ix 4 2 = [2]
+  | inr _ => False
+  end.
+Proof. vm_compute. repeat split; reflexivity. Qed.
+
 (* ---- per-chain suffix folds (chain encoding roll-ups), all chain lengths, all four monoids ---- *)
 Theorem C28_monoid_laws : forall o,
   (forall a b c, combine o a (combine o b c) = combine o (combine o a b) c) /\
@@ -457,6 +484,7 @@ Print Assumptions C28_chain_reachable.
 Print Assumptions C28_chain_rollup.
 Print Assumptions C28_lca_nested.
 Print Assumptions C28_lca_chain.
+Print Assumptions C28_near_subsumes.
 Print Assumptions C28_nested_subsumes.
 Print Assumptions C28_nested_desc.
 Print Assumptions C28_fenwick_build.
